@@ -774,6 +774,10 @@ fn parse_case(ctx: &mut Ctx, ps: &mut Passes) {
                 "\n"
             };
             let full = format!("{}{}", text, term);
+            if full.is_empty() {
+                // no bytes at all: not a line
+                continue;
+            }
             input.extend(full.as_bytes());
             if bad_utf8 && r.chance(40) {
                 let at = input.len() - term.len();
